@@ -392,6 +392,14 @@ static void scn_xbarrier(void)
     callers_join();
     CHK(ABT_xstream_barrier_free(&g_xbar));
 }
+/* a re-initialisation with an invalid number of waiters is rejected and changes nothing */
+static void barrier_bad_reinit(void)
+{
+    uint32_t got = 99;
+    int r = ABT_barrier_reinit(g_bar, 0);
+    CHK(ABT_barrier_get_num_waiters(g_bar, &got));
+    EV("\"e\":\"BarRejReinit\",\"ret\":%d,\"n\":%d", r == ABT_ERR_INV_ARG ? 1 : r == ABT_SUCCESS ? 0 : 2, (int)got);
+}
 static void scn_barrier(void)
 {
     int n = 1 + rnd(4);
@@ -407,6 +415,8 @@ static void scn_barrier(void)
     EV("\"e\":\"Barrier\",\"n\":%d", n);
     if (rnd(3) == 0)
         barrier_intruder();
+    if (rnd(3) == 0)
+        barrier_bad_reinit();
     /* phase 2 after reinit with a different number of waiters: by the main thread
      * after everybody left, or by the first caller that leaves phase 1 */
     int n2 = 1 + rnd(4);
@@ -422,6 +432,8 @@ static void scn_barrier(void)
     g_bar_reinit_n = 0;
     if (rnd(3) == 0)
         barrier_intruder();
+    if (rnd(3) == 0)
+        barrier_bad_reinit();
     assign_kinds(n2, 1, 0);
     int rounds2 = 1 + rnd(3);
     for (int i = 0; i < n2; i++) {
